@@ -23,6 +23,10 @@ of harness/props/c18.py) — except for constructors / module functions / static
 through the file's imports, whose GLOBAL effects are included (this is how every `Date(...)`
 construction shows up as a possible write of the date table).
 
+Inter-class (growth round 7b, `call_graph`): the recorded `pcalls` are resolved to the class of the parameter / attribute —
+annotation, default value, `isinstance` tests, naming convention table — and emitted as edges `cls.meth -> targetCls.targetMeth`
+(`res['call_graph']`); the per-method summaries above are unchanged by it.
+
 CLI:  extract.py [--json]     prints the summaries for the anchored classes.
 """
 from __future__ import annotations
@@ -30,6 +34,7 @@ from __future__ import annotations
 import ast
 import json
 import os
+import re
 import sys
 
 REPO = os.environ.get('FINVERIF_REPO', '/repo')
@@ -954,6 +959,217 @@ def module_state(root='financepy'):
     return [list(x) for x in sorted(res)]
 
 
+# ------------------------------------------------------------------------------------ inter-class call graph
+#: container / array methods: a call `x.append(…)` on a parameter or attribute is not a call into a financepy class; its in-place effect is
+#: already part of `writes` / `pwrites` (MUTATORS) and the others only read
+BUILTIN_METHODS = MUTATORS | {'copy', 'index', 'count', 'keys', 'values', 'items', 'get', 'tolist', 'astype', 'reshape', 'flatten',
+                              'sum', 'mean', 'std', 'min', 'max', 'dot', 'transpose', 'join', 'split', 'strip', 'lower', 'upper',
+                              'startswith', 'endswith', 'format', 'any', 'all', 'cumsum', 'cumprod', 'argsort', 'ravel', 'item'}
+
+_CURVE = [('financepy/market/curves/discount_curve.py', 'DiscountCurve')]
+_CDSCURVE = [('financepy/products/credit/cds_curve.py', 'CDSCurve')]
+_DATE = [('financepy/utils/date.py', 'Date')]
+#: rule (d): names whose class follows from the package's naming convention when no annotation / default / isinstance test says it.
+#: Every curve class of the package derives from DiscountCurve (the sub-classes present in the table are added to every
+#: DiscountCurve edge); `issuer_curve` / `survival_curve` are CDSCurve wherever `survival_prob` is called on them; every `*_dt` is a Date
+#: (`dts`: a list of them, the call is on the elements); the three instrument lists of IborSingleCurve are what their names say.
+NAME_CONVENTION = {
+    'discount_curve': _CURVE, 'dividend_curve': _CURVE, 'index_curve': _CURVE, 'domestic_curve': _CURVE, 'foreign_curve': _CURVE,
+    'libor_curve': _CURVE, 'dom_curve': _CURVE, 'for_curve': _CURVE, 'ccy1DiscountCurve': _CURVE, 'ccy2DiscountCurve': _CURVE,
+    'issuer_curve': _CDSCURVE + _CURVE, 'survival_curve': _CDSCURVE + _CURVE,
+    'dt': _DATE, 'dts': _DATE,
+    'used_swaps': [('financepy/products/rates/ibor_swap.py', 'IborSwap')],
+    'used_deposits': [('financepy/products/rates/ibor_deposit.py', 'IborDeposit')],
+    'used_fras': [('financepy/products/rates/ibor_fra.py', 'IborFRA')],
+}
+
+
+def _conv(name):
+    if name in NAME_CONVENTION:
+        return list(NAME_CONVENTION[name])
+    if name.endswith('_dt') or name.endswith('_dts'):
+        return list(_DATE)
+    return []
+
+
+def _resolve_cls(mod, name):
+    if name in mod.classes:
+        return (mod.rel, name)
+    if name in mod.imports:
+        rel, nm = mod.imports[name]
+        m = module(rel)
+        if m is not None and nm in m.classes:
+            return (m.rel, nm)
+    return None
+
+
+def _names_in(e):
+    out = []
+    for n in ast.walk(e):
+        if isinstance(n, ast.Name):
+            out.append(n.id)
+        elif isinstance(n, ast.Constant) and isinstance(n.value, str):
+            out += [x for x in re.split(r'[^A-Za-z0-9_]+', n.value) if x]
+    return out
+
+
+def _param_types(mod, fd, pname, how):
+    """classes of parameter `pname` of function `fd`: (a) annotation, (b) default value, (c) isinstance tests in the body"""
+    res = []
+    a = fd.args
+    pos = a.posonlyargs + a.args
+    defaults = dict(zip([x.arg for x in pos[len(pos) - len(a.defaults):]], a.defaults))
+    defaults.update({x.arg: dv for x, dv in zip(a.kwonlyargs, a.kw_defaults) if dv is not None})
+    for x in pos + a.kwonlyargs:
+        if x.arg == pname:
+            if x.annotation is not None:
+                for nm in _names_in(x.annotation):
+                    c = _resolve_cls(mod, nm)
+                    if c:
+                        res.append(c)
+                        how.add('annotation')
+            dv = defaults.get(pname)
+            if isinstance(dv, ast.Call) and isinstance(dv.func, ast.Name):
+                c = _resolve_cls(mod, dv.func.id)
+                if c:
+                    res.append(c)
+                    how.add('default')
+    res += _isinstance_types(mod, fd, pname, how)
+    return res
+
+
+def _isinstance_types(mod, fd, pname, how):
+    res = []
+    for n in ast.walk(fd):
+        if isinstance(n, ast.Call) and isinstance(n.func, ast.Name) and n.func.id == 'isinstance' and len(n.args) == 2 \
+                and isinstance(n.args[0], ast.Name) and n.args[0].id == pname:
+            ks = n.args[1].elts if isinstance(n.args[1], (ast.Tuple, ast.List)) else [n.args[1]]
+            for k in ks:
+                if isinstance(k, ast.Name):
+                    c = _resolve_cls(mod, k.id)
+                    if c:
+                        res.append(c)
+                        how.add('isinstance')
+    return res
+
+
+def _arg_types(ci, mname, arg, how):
+    """candidate classes [(rel, cls)] of `arg` ('param' or 'self.attr') seen from method `mname` of class `ci`"""
+    mod, fd, _ = ci.methods[mname]
+    if not arg.startswith('self.'):
+        params = [x.arg for x in fd.args.posonlyargs + fd.args.args + fd.args.kwonlyargs]
+        res = _param_types(mod, fd, arg, how) if arg in params else []
+        if not res:      # the call site may sit in a method this one calls with the parameter: same name, same class
+            for m2, (mod2, fd2, _) in ci.methods.items():
+                res += _isinstance_types(mod2, fd2, arg, how)
+        if not res:
+            res = _conv(arg)
+            if res:
+                how.add('convention')
+        return res
+    attr = arg[5:]
+    res = []
+    for m2, (mod2, fd2, _) in ci.methods.items():
+        a2 = fd2.args
+        names = [x.arg for x in a2.posonlyargs + a2.args + a2.kwonlyargs]
+        if not names:
+            continue
+        for n in ast.walk(fd2):
+            if isinstance(n, ast.Assign) and any(isinstance(t, ast.Attribute) and isinstance(t.value, ast.Name) and
+                                                 t.value.id == names[0] and t.attr == attr for t in n.targets):
+                v = n.value
+                if isinstance(v, ast.Name) and v.id in names[1:]:
+                    r = _param_types(mod2, fd2, v.id, how)
+                    if not r:
+                        r = _conv(v.id)
+                        if r:
+                            how.add('convention')
+                    res += r
+                elif isinstance(v, ast.Name):      # a local of that method built by a constructor call:  x = K(...); self.attr = x
+                    for n2 in ast.walk(fd2):
+                        if isinstance(n2, ast.Assign) and isinstance(n2.value, ast.Call) and isinstance(n2.value.func, ast.Name) and \
+                                any(isinstance(t, ast.Name) and t.id == v.id for t in n2.targets):
+                            c = _resolve_cls(mod2, n2.value.func.id)
+                            if c:
+                                res.append(c)
+                                how.add('constructed')
+                elif isinstance(v, ast.Call) and isinstance(v.func, ast.Name):
+                    c = _resolve_cls(mod2, v.func.id)
+                    if c:
+                        res.append(c)
+                        how.add('constructed')
+    if not res:
+        res = _conv(attr)
+        if res:
+            how.add('convention')
+    return res
+
+
+def call_graph(an, table):
+    """Inter-class edges for the recorded `pcalls` of every method of the classes in `table` ([(rel, cls)]).
+
+    Returns (edges, unresolved, extra): edges = sorted [cls, meth, arg, target class, target method, how];
+    unresolved = sorted [cls, meth, arg, method name] whose argument's class could not be told; extra = [(rel, cls)] target
+    classes outside `table`, analysed like the others (all their methods) and followed transitively."""
+    table = [(os.path.normpath(r), c) for r, c in table]
+    known = list(table)
+    edges, unresolved = set(), set()
+    done = set()
+    while True:
+        new_classes = []
+        for rel, cls in list(known):
+            if (rel, cls) in done:
+                continue
+            done.add((rel, cls))
+            ci = class_info(rel, cls)
+            for m in sorted(ci.methods):
+                s = an.summ.get(('m', rel, cls, m))
+                if s is None:
+                    continue
+                for pc in sorted(s.pcalls):
+                    arg, meth = pc.split(':', 1)
+                    if meth in BUILTIN_METHODS:
+                        continue
+                    how = set()
+                    cands = []
+                    for c in _arg_types(ci, m, arg, how):
+                        c = (os.path.normpath(c[0]), c[1])
+                        tci = class_info(*c)
+                        if tci is not None and meth in tci.methods and c not in cands:
+                            cands.append(c)
+                        elif tci is not None:      # an abstract base (`model: Model`): the classes of the table deriving from it
+                            for k in table:
+                                kci = class_info(*k)
+                                if c[1] in kci.bases and meth in kci.methods and k not in cands:
+                                    cands.append(k)
+                                    how.add('subclass')
+                    if not cands:
+                        unresolved.add((cls, m, arg, meth))
+                        continue
+                    for c in cands:
+                        edges.add((cls, m, arg, c[1], meth, '+'.join(sorted(how))))
+                        if c not in known and c not in new_classes:
+                            new_classes.append(c)
+        if not new_classes:
+            break
+        for rel, cls in new_classes:
+            known.append((rel, cls))
+            for m in class_info(rel, cls).methods:
+                an.get(('m', rel, cls, m))
+        an.run([])
+    # a received object may be of a sub-class: every class of the table deriving from the target gets the same edge
+    sub = set()
+    for (cls, m, arg, tc, tm, how) in edges:
+        for rel, k in known:
+            ci = class_info(rel, k)
+            if k != tc and tc in ci.bases and tm in ci.methods:
+                sub.add((cls, m, arg, k, tm, how + '+subclass'))
+    edges |= sub
+    extra = [k for k in known if k not in table]
+    return [list(e) for e in sorted(edges)], [list(u) for u in sorted(unresolved)], extra
+
+
+
 # ------------------------------------------------------------------------------------ driver
 def analyse():
     """{'classes': {Class: {'file', 'ctor': [...], 'class_attrs': [...], 'methods': {name: summary}}},
@@ -1003,6 +1219,36 @@ def analyse():
             methods[f] = d
         out['classes'][f'<{m.short}>'] = {'file': rel, 'ctor': [], 'class_attrs': [], 'methods': methods}
         out['mutable_globals'] += sorted(f'{m.short}.{g}' for g in m.mutable_globals)
+    # inter-class call graph (additive: nothing above depends on it)
+    edges, unresolved, extra = call_graph(an, ANCHORS + AUXILIARY + EXTENDED)
+    targets = {}
+    for rel, cls in extra:
+        ci = class_info(rel, cls)
+        methods = {}
+        for m in sorted(ci.methods):
+            d = an.summ[('m', rel, cls, m)].as_dict()
+            d['public'] = is_public(m)
+            d['owner'] = ci.methods[m][2]
+            methods[m] = d
+        targets[cls] = {'file': rel, 'ctor': sorted(methods.get('__init__', {'writes': []})['writes']),
+                        'class_attrs': sorted(ci.class_attrs), 'methods': methods}
+    allc = dict(out['classes'])
+    allc.update(out['extended'])
+    allc.update(targets)
+    nodes = {}
+    for e in edges:
+        for k, m in ((e[0], e[1]), (e[3], e[4])):
+            if (k, m) in nodes:
+                continue
+            c = allc[k]
+            s = c['methods'][m]
+            readback = set()
+            for m2, s2 in c['methods'].items():
+                if s2['public'] and m2 != '__init__':
+                    readback |= set(s2['rbw'])
+            nodes[(k, m)] = [k, m, s['writes'], sorted(set(s['writes']) & readback), s['pwrites'], s['gwrites']]
+    out['call_graph'] = {'edges': edges, 'unresolved': unresolved, 'targets': targets,
+                         'nodes': [nodes[k] for k in sorted(nodes)]}
     return out
 
 
